@@ -116,6 +116,9 @@ func usage() {
 	os.Exit(2)
 }
 
+// scratchDirs: temporary directories created by stream runners, removed when the run ends
+var scratchDirs []string
+
 func main() {
 	if len(os.Args) < 3 {
 		usage()
@@ -191,6 +194,11 @@ func main() {
 		s.run(r)
 		r.out.Flush()
 		r.resolved.Flush()
+		// scratch directories made while running (template files) are removed again
+		_ = os.Chdir(os.TempDir())
+		for _, d := range scratchDirs {
+			_ = os.RemoveAll(d)
+		}
 	default:
 		usage()
 	}
